@@ -347,6 +347,36 @@ def check_c01_c02(c, result):
         oracle(c, tq12, res12, model12, result, c.files, k12)
         c.stats['edge_case_queries'] = len(tq12)
         c.stats['edge_case_in_fragment'] = sum(1 for q_, _ in tq12 if model12.get(q_, {}).get('infrag') == '1')
+    # (2k) conditions that FAIL at run time on some entities only (the first argument of an object creation that has
+    # none): a combination whose condition cannot be evaluated is rejected -- whatever was evaluated before it.  The
+    # truth comes from the entities' own attributes (graph dump), not from a model of the evaluator
+    import objview
+    news = [n for n in c.nodes if engine.hexs(n['type']) == 'ClassInstanceExpr' and n.get('new', '~') != '~']
+    if news:
+        def parts(n):
+            t = objview._toks(n['new'])
+            return t[0], (len(t) - 1) // 2, (t[2] if len(t) > 2 else None)
+        arg0s = Counter(parts(n)[2] for n in news if parts(n)[1] >= 1 and parts(n)[2] is not None and '\n' not in parts(n)[2])
+        tq13, want13 = [], {}
+        for j, (v, _) in enumerate(arg0s.most_common(4)):
+            for op in ('==', '!='):
+                qid = 'rt%d%s' % (j, 'e' if op == '==' else 'n')
+                tq13.append((qid, 'FROM ClassInstanceExpr AS n WHERE n.getClassInstanceExpr().GetArg(0).NodeString %s %s SELECT n.getName()' % (op, querygen.lit(v))))
+                want13[qid] = Counter((engine.hexs(n['file']), int(n['line']), engine.hexs(n['snippet'])) for n in news
+                                      if parts(n)[1] >= 1 and ((parts(n)[2] == v) == (op == '==')))
+        res13, _, _ = c.run(tq13)
+        c.stats['runtime_fault_queries'] = len(tq13)
+        c.stats['runtime_fault_entities_failing'] = sum(1 for n in news if parts(n)[1] == 0)
+        for qid, t in tq13:
+            oc, payload = res13.get(qid, ('missing', ''))
+            if oc != 'ok':
+                continue
+            got = Counter(x[0] for x in tuples_of(payload, 1).elements())
+            miss, extra = want13[qid] - got, got - want13[qid]
+            if (pid == 'C01' and miss) or (pid == 'C02' and extra):
+                result.violations.append(payload_replay(pid, 'a condition that cannot be evaluated on some entities (no first argument): %s' % ('a matching entity is not reported' if miss else 'an entity is reported on which the condition fails or is false'),
+                                                        [t], 'expected %d, reported %d; e.g. %s' % (sum(want13[qid].values()), sum(got.values()), str(list((miss or extra).items())[:1])[:300]), c.files))
+                break
     # (2d) string literals with multi-byte characters in conditions that are TRUE for (almost) every entity, with and
     # without predicates: a condition cut or re-encoded wrongly loses every match
     tq7, k7 = [], {}
